@@ -39,7 +39,7 @@ func (h H) truncationOnlyAtConflict(rule string) {
 		if !h.C.Check(rule+" arg", site, ok, h.pos(c), "removeGTE must be called with the index of the received entry; found "+idx) {
 			continue
 		}
-		h.gate(rule+" above-snapshot", site, c, core.MkAtom(e+".index", ">", "Raft.storage.snaps.index"))
+		h.gateSnap(rule+" above-snapshot", site, c, e+".index", ">", "Raft.storage")
 		h.gate(rule+" inside-log", site, c, core.MkAtom(e+".index", "<=", "Raft.storage.lastLogIndex"))
 		// conflict: some entry M fetched by mustGetEntry(e.index, M) has M.term != e.term
 		fi := h.P.Info(c.Parent())
@@ -145,7 +145,10 @@ func (h H) consistencyCheck(rule string) {
 	if match.Op == "!=" {
 		match = match.Negate()
 	}
-	covered := core.MkAtom("appendReq.prevLogIndex", "<=", "Raft.storage.snaps.index")
+	var covered []core.Atom
+	for _, f := range snapIndexForms("Raft.storage") {
+		covered = append(covered, core.MkAtom("appendReq.prevLogIndex", "<=", f))
+	}
 	var targets []struct {
 		in   ssa.Instruction
 		name string
@@ -169,7 +172,7 @@ func (h H) consistencyCheck(rule string) {
 		}
 	}
 	for _, t := range targets {
-		h.gateFresh(rule+" gate", t.name, t.in, match, covered)
+		h.gateFresh(rule+" gate", t.name, t.in, append([]core.Atom{match}, covered...)...)
 	}
 	h.C.Floor(rule+" (gated sites)", len(targets), 4)
 	// the deferred closure (flush + commit) is registered only after the check
@@ -177,7 +180,7 @@ func (h H) consistencyCheck(rule string) {
 		core.Instrs(fn, func(in ssa.Instruction) {
 			if df, ok := in.(*ssa.Defer); ok {
 				if mc, ok := df.Call.Value.(*ssa.MakeClosure); ok && mc.Fn == d {
-					h.gateFresh(rule+" gate", "(*Raft).onAppendEntriesRequest defer "+h.name(d), df, match, covered)
+					h.gateFresh(rule+" gate", "(*Raft).onAppendEntriesRequest defer "+h.name(d), df, append([]core.Atom{match}, covered...)...)
 				}
 			}
 		})
@@ -186,7 +189,7 @@ func (h H) consistencyCheck(rule string) {
 	for k, g := range h.P.CallsTo(fn, mge) {
 		if h.argStr(g, 1) == "appendReq.prevLogIndex" {
 			h.gate(rule+" prev-inside-log", h.site(fn, mge, k), g, core.MkAtom("appendReq.prevLogIndex", "<=", "Raft.storage.lastLogIndex"))
-			h.gate(rule+" prev-above-snapshot", h.site(fn, mge, k), g, core.MkAtom("appendReq.prevLogIndex", ">", "Raft.storage.snaps.index"))
+			h.gateSnap(rule+" prev-above-snapshot", h.site(fn, mge, k), g, "appendReq.prevLogIndex", ">", "Raft.storage")
 		}
 	}
 }
@@ -210,7 +213,7 @@ func (h H) entrySkipAndKeep(rule string) {
 			}
 		}
 		h.C.Check(rule+" decoded-entry", site, decoded, h.pos(c), "the appended entry is not the one decoded from the request stream")
-		h.gate(rule+" above-snapshot", site, c, core.MkAtom(e+".index", ">", "Raft.storage.snaps.index"))
+		h.gateSnap(rule+" above-snapshot", site, c, e+".index", ">", "Raft.storage")
 		// on every path: either the entry is beyond the log, or the local entry at that index conflicted (then removeGTE precedes)
 		fi := h.P.Info(fn)
 		var m string
@@ -304,7 +307,14 @@ func (h H) storageCacheCoherence(rule string) {
 		iR := evIndex(t, isCall("(*log.Log).Reset"))
 		iI := evIndex(t, isStoreTo("storage.lastLogIndex"))
 		iT := evIndex(t, isStoreTo("storage.lastLogTerm"))
-		ok := iR >= 0 && iI > iR && iT > iR && t.Events[iR].Args[1] == "storage.snaps.index" && t.Events[iI].Args[1] == "storage.snaps.index" && t.Events[iT].Args[1] == "storage.snaps.term"
+		// the snapshot index/term: bare fields or the results of one latest() call on storage.snaps
+		idx, term := "storage.snaps.index", "storage.snaps.term"
+		for _, e := range t.Events {
+			if e.Callee == "(*snapshots).latest" && e.Args[0] == "storage.snaps" && len(e.Results) == 2 {
+				idx, term = e.Results[0], e.Results[1]
+			}
+		}
+		ok := iR >= 0 && iI > iR && iT > iR && t.Events[iR].Args[1] == idx && t.Events[iI].Args[1] == idx && t.Events[iT].Args[1] == term
 		h.C.Check(rule+" clearLog-cache", key, ok, t.ExitPos, "clearLog must Reset(snaps.index) and then set (lastLogIndex, lastLogTerm) = (snaps.index, snaps.term)")
 	}
 	h.C.Floor(rule+" (clearLog success paths)", n, 1)
